@@ -55,13 +55,13 @@ CHECKS = {
    note="trusted: fakeredis (passes gmqtt's redis store suites), mqttx; single redis commands are atomic; redis-internal durability is out of scope", ref="§5 C09"),
  "C15": dict(cat="exploration", technique="Go race detector + panic/deadlock/termination monitors over chaos workloads with schedule perturbation; porcupine linearizability of recorded store histories",
    text="Chaos runs (20-60 clients incl. shared client ids, slow consumers, half-open and refused connections, 4 API goroutines, wills, expiries, Stop under traffic, GOMAXPROCS 1/2/4/16, seeded delays at lock hand-over points) under the race detector; monitors: race log filtered to gmqtt frames, recovered/fatal panics, 30 s request watchdog with goroutine dumps, Stop result and duration, listeners closed, sockets at EOF, plugin Load/Unload/OnStop exactly once, no broker goroutine left after 10 s; recorded concurrent histories of the retained and subscription stores checked with porcupine.",
-   note="the race detector only sees schedules produced; goroutines attributed by function name with one broker per process at a time; recovered panics of connection goroutines are seen through a verif hook; chaos runs on redis with refused commands are judged for races, crashes and termination only (DESIGN §9.6)", ref="§5 C15"),
+   note="directed scenarios (delayed wills at Stop, restored sessions, a resumed consumer that never reads with expired in-flight entries and a full queue) beside the chaos runs; the race detector only sees schedules produced; goroutines attributed by function name with one broker per process at a time; recovered panics of connection goroutines are seen through a verif hook; chaos runs on redis with refused commands are judged for races, crashes and termination only (DESIGN §9.6)", ref="§5 C15"),
  "C06": dict(cat="exploration", technique="differential codec monitor (independent mqttx codec), structure-aware + mutation + random + length-bomb generators, framing/allocation/hang monitors, exhaustive string predicates",
    text="Millions of generated inputs (well-formed packets of all 15 types and 3 versions with every property, byte-level mutations, raw bytes, tiny inputs declaring huge lengths) are fed to gmqtt's decoder under recover, a 10 s hang watchdog, a counting reader with a trailer packet (framing) and a TotalAlloc monitor (allocation bound); accepted packets are re-encoded and re-decoded; well-formed values are cross-encoded/decoded with an independent codec; reported sizes are compared with encoded lengths; validity predicates are compared exhaustively on all strings up to length 6 over a hostile alphabet.",
    note="trusted: mqttx (written from the OASIS specs, own test-suite); leniency outside the explicit malformed classes is counted, not judged; also: packets kept while the Reader reads on, encodings after a broken write", ref="§5 C06"),
  "C16": dict(cat="exploration", technique="ordering / exactly-once monitor over an applied-event trace (hook after duplicate suppression) under scripted stream faults from a TCP fault proxy",
    text="Pairs of real nodes federated through serf and gRPC on loopback; the emitter's stream crosses a proxy that cuts all connections, cuts after n more bytes in either direction (thorough: every offset 1..600 of a re-established stream), black-holes traffic and cuts again during the resend; the receiver's applied-event trace must contain every emitted subscribe/unsubscribe/message event exactly once in emission order within 15 s after the last fault, views must converge, forwarded messages reach the subscriber once; node replacement exercises the full resynchronisation.",
-   note="needs the verif hooks of plugin/federation; bounded progress 15 s; serf membership trusted; views are compared with the subscription store (ground truth); includes lost acknowledgements before a resume and resynchronisation under churn", ref="§5 C16"),
+   note="needs the verif hooks of plugin/federation; bounded progress 15 s; serf membership trusted; views are compared with the subscription store (ground truth); also clusters of three nodes with drifted per-peer streams and last-UNSUBSCRIBE-vs-new-SUBSCRIBE rounds with a hook held at the yield sites of the federation's subscription hooks; includes lost acknowledgements before a resume and resynchronisation under churn", ref="§5 C16"),
  "C17": dict(cat="exploration", technique="routing monitor over applied-event traces of three federated nodes + wire-level conservation of copies (subscription identifiers)",
    text="Generated subscription distributions over three real federated nodes (plain, wildcard, $-topics, share groups spanning nodes) and unique publishes from any node: forwarded once to exactly the nodes with a matching non-shared subscription, never to nodes without a match, never back or onward; every matching non-shared subscriber gets one copy at min QoS; exactly one member per share group in the federation; retained messages reach and update (or clear) every node's retained store.",
    note="views converged before publishing (logical barrier, against the subscription store); per-peer streams FIFO; known findings: share-group handling in sendMessage (signatures carry what each mechanism needs); includes will messages, a store refusal at session end and replaced sessions", ref="§5 C17"),
